@@ -151,6 +151,7 @@ func describeRev(sc *RevScenario) any {
 		Pos                 int
 		Key                 string
 		LongSerial, NoCRLSg bool
+		SameNameAsIssuer    bool
 		FreshestInCert      bool
 		OCSP                []srcD
 		CRL                 []map[string]any
@@ -170,7 +171,7 @@ func describeRev(sc *RevScenario) any {
 			wd.SigningTime = rel(w.ST)
 		}
 		for _, cp := range w.Certs {
-			cd := certD{Pos: cp.Pos, Key: cp.KeyKind, LongSerial: cp.LongSerial, NoCRLSg: cp.NoCRLSign, FreshestInCert: cp.Freshest}
+			cd := certD{Pos: cp.Pos, Key: cp.KeyKind, LongSerial: cp.LongSerial, NoCRLSg: cp.NoCRLSign, SameNameAsIssuer: cp.SameName, FreshestInCert: cp.Freshest}
 			for _, s := range cp.OCSP {
 				cd.OCSP = append(cd.OCSP, srcD{URL: s.URL, Behaviour: s.Content.String(), Fault: s.Fault.String(), LatencyMs: s.Latency.Milliseconds()})
 			}
